@@ -56,6 +56,50 @@ class Obj:
         return '<%s>' % self.name
 
 
+class Deque(list):
+    """a VecDeque whose ring buffer is laid out as two slices: elements [0, split) and [split, len).  Code that treats the two slices
+    separately (as_slices / as_mut_slices) sees exactly this layout; make_contiguous() removes it."""
+
+    def __init__(self, items=(), split=None):
+        list.__init__(self, items)
+        self.split = len(self) if split is None else split
+
+
+class View(Obj):
+    """a mutable sub-slice [lo, hi) of a list (writes go through)"""
+
+    def __init__(self, base, lo, hi):
+        self.base, self.lo, self.hi = base, lo, hi
+
+        def rev(a):
+            self.base[self.lo:self.hi] = self.base[self.lo:self.hi][::-1]
+
+        def swap(a):
+            i, j = a
+            if not (0 <= i < self.hi - self.lo and 0 <= j < self.hi - self.lo):
+                raise Panics('swap out of bounds')
+            self.base[self.lo + i], self.base[self.lo + j] = self.base[self.lo + j], self.base[self.lo + i]
+        Obj.__init__(self, 'slice', {'reverse': rev, 'swap': swap, 'len': lambda a: self.hi - self.lo, 'is_empty': lambda a: self.hi == self.lo,
+                                     'iter': lambda a: self.base[self.lo:self.hi], 'iter_mut': lambda a: self.base[self.lo:self.hi],
+                                     'to_vec': lambda a: deep_clone(self.base[self.lo:self.hi])}, strict=True)
+
+    def getitem(self, i):
+        if isinstance(i, int) and 0 <= i < self.hi - self.lo:
+            return self.base[self.lo + i]
+        raise Panics('index out of bounds')
+
+
+def deep_clone(v):
+    """Rust's Clone on the modelled containers (host objects are shared: they are immutable values or deliberate references)"""
+    if isinstance(v, dict):
+        return dict((k, deep_clone(x)) for k, x in v.items())
+    if isinstance(v, Deque):
+        return Deque([deep_clone(x) for x in v], v.split)
+    if isinstance(v, list):
+        return [deep_clone(x) for x in v]
+    return v
+
+
 SOME = 'Some'
 NONE = ('None',)
 
@@ -216,6 +260,10 @@ class Interp:
             p = r.get('path') or ''
             if p.endswith('::None') or p == 'None':
                 return NONE
+            if self.facts is not None and 'Const' in (r.get('dk') or '') and 'Ctor' not in (r.get('dk') or '') and p in self.facts.get('consts', {}):
+                return self.ev(self.facts['consts'][p]['hir'], {})
+            if ('Fn' in (r.get('dk') or '')) and 'Ctor' not in (r.get('dk') or '') and self._inlinable(p):
+                return lambda *a, _p=p: self.local_call(_p, list(a))
             return ('const', p)
         if k == 'Tup':
             return tuple(self.ev(x, env) for x in e['items'])
@@ -340,6 +388,12 @@ class Interp:
             raise NoEval('? on %r' % (v,))
         if k == 'Struct':
             d = {'__struct__': (e['ctor'].get('path') or '')}
+            if e.get('base') is not None:
+                b_ = self.ev(e['base'], env)
+                if not isinstance(b_, dict):
+                    raise NoEval('struct base %r' % (b_,))
+                d.update(deep_clone(b_))
+                d['__struct__'] = (e['ctor'].get('path') or '')
             for n, v in e['fields']:
                 d[n] = self.ev(v, env)
             return d
@@ -392,6 +446,11 @@ class Interp:
                 return {}
             if 'Vec' in t:
                 return []
+        if c.endswith(('Default>::default', 'Default::default')) and not e['args'] and self.facts is not None:
+            t_ = (e.get('ty') or '').strip()
+            k_ = '<%s as std::default::Default>::default' % t_
+            if self._inlinable(k_):
+                return self.local_call(k_, [])
         if c.endswith('cmp::min') and len(e['args']) == 2:
             return min(self.ev(e['args'][0], env), self.ev(e['args'][1], env))
         if c.endswith('cmp::max') and len(e['args']) == 2:
@@ -427,7 +486,7 @@ class Interp:
             raise NoEval('method %s on %s' % (nm, recv.name))
         if nm in ('clone', 'to_owned', 'copied', 'cloned', 'iter', 'into_iter', 'iter_mut', 'by_ref', 'as_slice', 'to_vec', 'as_ref', 'as_mut', 'borrow', 'peekable', 'into', 'as_deref') and not args:
             if nm in ('clone', 'to_owned', 'to_vec') and isinstance(recv, (list, dict)):
-                return type(recv)(recv)
+                return deep_clone(recv)
             if isinstance(recv, dict) and nm in ('iter', 'into_iter', 'iter_mut'):
                 return [(k_, v_) for k_, v_ in recv.items()]
             return recv
@@ -539,6 +598,18 @@ class Interp:
                 return some(L[i]) if isinstance(i, int) and 0 <= i < len(L) else NONE
             if nm == 'sum':
                 return sum(L)
+            if nm in ('make_contiguous', 'as_mut_slice') and isinstance(recv, list) and not args:
+                if isinstance(recv, Deque):
+                    recv.split = len(recv)
+                return recv
+            if nm in ('as_slices', 'as_mut_slices') and isinstance(recv, Deque) and not args:
+                return (View(recv, 0, recv.split), View(recv, recv.split, len(recv)))
+            if nm == 'split_last' and not args:
+                return some((L[-1], L[:-1])) if L else NONE
+            if nm == 'split_first' and not args:
+                return some((L[0], L[1:])) if L else NONE
+            if nm == 'chain' and len(args) == 1:
+                return L + list(A())
             if nm in ('join', 'concat') and all(isinstance(x, str) for x in L):
                 return (A() if args else '').join(L)
             if nm == 'try_for_each':
@@ -569,6 +640,14 @@ class Interp:
                     f(x)
                 return None
             if isinstance(recv, list):
+                if nm in ('reserve', 'reserve_exact', 'shrink_to_fit', 'shrink_to'):
+                    return None
+                if nm == 'pop_front' and not args:
+                    return some(recv.pop(0)) if recv else NONE
+                if nm == 'pop_back' and not args:
+                    return some(recv.pop()) if recv else NONE
+                if nm in ('front', 'back') and not args:
+                    return some(recv[0] if nm == 'front' else recv[-1]) if recv else NONE
                 if nm in ('push', 'push_back'):
                     recv.append(A())
                     return None
@@ -660,6 +739,14 @@ class Interp:
             i = l['res']['id']
             env[i] = v if op is None else op(env[i], v)
             return
+        if l.get('k') == 'Field':
+            b = self.ev(l['e'], env)
+            if isinstance(b, dict) and '__struct__' in b and l['name'] in b:
+                b[l['name']] = v if op is None else op(b[l['name']], v)
+                return
+            if isinstance(b, list) and l['name'].isdigit() and int(l['name']) < len(b):
+                b[int(l['name'])] = v if op is None else op(b[int(l['name'])], v)
+                return
         if l.get('k') == 'Index':
             b = self.ev(l['e'], env)
             i = self.ev(l['i'], env)
